@@ -4,6 +4,7 @@ CONSTANTS
   MaxMatch = 4
   PrefixFix = TRUE
   PlaintiffFix = TRUE
+  TokenFloor = TRUE
   MaxWords = 4
 INVARIANT Laws
 CHECK_DEADLOCK FALSE
